@@ -8,6 +8,7 @@ pub fn run(kind: &str, i: &Input) -> String {
     match kind {
         "vm_op" => vm_op(i),
         "asm_bytes" => asm_bytes(i),
+        "check_graph" => check_graph(i),
         "types_words" => types_words(i),
         "types_bytes" => types_bytes(i),
         "types_roundtrip" => types_roundtrip(i),
@@ -272,5 +273,64 @@ fn asm_bytes(i: &Input) -> String {
             format!("result=ok\nbits={}\n", effects::analyze(&ops).bits())
         }
         f => format!("unknown_fn={f}\n"),
+    }
+}
+
+pub fn parse_ops(s: &str) -> Vec<Op> {
+    s.split(';').filter(|x| !x.trim().is_empty()).map(|x| {
+        let (n, imm) = x.trim().rsplit_once(':').unwrap_or((x.trim(), "0"));
+        op_by_name(n, imm.parse().unwrap_or(0))
+    }).collect()
+}
+
+#[derive(Clone)]
+pub struct MapState(pub std::collections::BTreeMap<(ContentAddress, Vec<i64>), Vec<i64>>);
+impl essential_vm::StateRead for MapState {
+    type Error = String;
+    fn key_range(&self, c: ContentAddress, k: Vec<i64>, n: usize) -> Result<Vec<Vec<i64>>, String> {
+        let mut out = vec![];
+        let mut key = k;
+        for _ in 0..n.min(64) {
+            out.push(self.0.get(&(c.clone(), key.clone())).cloned().unwrap_or_default());
+            // successor with carry
+            let mut done = false;
+            for w in key.iter_mut().rev() {
+                if *w == i64::MAX { *w = i64::MIN; } else { *w += 1; done = true; break; }
+            }
+            if !done { break; }
+        }
+        Ok(out)
+    }
+}
+
+/// one solution, predicate graph given by nodes/edges, one program (op list) per node,
+/// through the real two-pass entry point
+fn check_graph(i: &Input) -> String {
+    use essential_check::solution::{check_and_compute_solution_set_two_pass, CheckPredicateConfig};
+    use essential_types::predicate::Program;
+    use essential_types::solution::SolutionSet;
+    use std::collections::HashMap;
+    let n: usize = get(i, "n").parse().unwrap();
+    let ess: Vec<u16> = get(i, "edge_starts").split_whitespace().map(|x| x.parse().unwrap()).collect();
+    let edges: Vec<u16> = get(i, "edges").split_whitespace().map(|x| x.parse().unwrap()).collect();
+    let mut programs: HashMap<ContentAddress, Arc<Program>> = HashMap::new();
+    let mut nodes = vec![];
+    for k in 0..n {
+        let ops = parse_ops(get(i, &format!("prog{k}")));
+        let prog = Program(essential_asm::to_bytes(ops).collect());
+        let ca = essential_hash::content_addr(&prog);
+        programs.insert(ca.clone(), Arc::new(prog));
+        nodes.push(Node { edge_start: ess[k], program_address: ca });
+    }
+    let pred = Predicate { nodes, edges };
+    let paddr = PredicateAddress { contract: ContentAddress([7; 32]), predicate: ContentAddress([9; 32]) };
+    let mut preds: HashMap<PredicateAddress, Arc<Predicate>> = HashMap::new();
+    preds.insert(paddr.clone(), Arc::new(pred));
+    let set = SolutionSet { solutions: vec![Solution { predicate_to_solve: paddr, predicate_data: vec![], state_mutations: vec![] }] };
+    let cfg = Arc::new(CheckPredicateConfig { collect_all_failures: get(i, "collect_all") == "1" });
+    let state = MapState(Default::default());
+    match check_and_compute_solution_set_two_pass(&state, set, preds, programs, cfg) {
+        Ok((gas, set)) => format!("result=ok\ngas={gas}\nmutations={}\n", set.solutions[0].state_mutations.len()),
+        Err(e) => format!("result=err\nerr={}\n", format!("{e:?}").replace('\n', " ")),
     }
 }
